@@ -193,6 +193,7 @@ func checkC01(w *World, r *Report) {
 		rulePredicate(w, r, "C01", trig, pred, opts)
 	}
 	ruleWrappersUnwrap(w, r, "C01")
+	ruleLocksReleased(w, r, "C01.L-UNLOCK")
 }
 
 // ruleFinalRender (C03c): on the container's done arm, without a remembered error and under
@@ -518,9 +519,12 @@ func checkC03(w *World, r *Report) {
 	ruleCursorUp(w, r, "C03")
 	ruleFlushReturnsErrors(w, r, "C03")
 	ruleWriterNew(w, r, "C03")
+	ruleIsTerminal(w, r, "C03")
+	ruleWindowsClear(w, r, "C03")
 	ruleSyncArm(w, r, "C03")
 	ruleRowsFit(w, r, "C03")
 	ruleTriggerCancels(w, r, "C03")
+	ruleOnFinalDecorations(w, r, "C03")
 }
 
 // ruleStatisticsFaithful: the Statistics handed to fillers/decorators copy the state's fields.
@@ -690,6 +694,8 @@ func checkC13(w *World, r *Report) {
 	ruleCursorUp(w, r, "C13")
 	ruleFlushReturnsErrors(w, r, "C13")
 	ruleWriterNew(w, r, "C13")
+	ruleIsTerminal(w, r, "C13")
+	ruleWindowsClear(w, r, "C13")
 	ruleOptionTable(w, r, "C13", map[string][3]string{"WithOutput": {tPState, "output", "paramOrDefault"}, "WithRenderDelay": {tPState, "delayRC", "param"}})
 	ruleStateAgrees(w, r, "C13")
 	// rows are written only inside flush
@@ -907,6 +913,7 @@ func checkC14(w *World, r *Report) {
 	} else {
 		r.Unresolved("anchor", "bar constructor", "not found")
 	}
+	ruleIsRunning(w, r, "C14")
 	// the container's own context: WithCancel of the caller's, cancel stored in Progress.cancel
 	if nw := w.Func("mpb.NewWithContext"); nw != nil {
 		okC := false
@@ -1350,6 +1357,7 @@ func checkC15(w *World, r *Report) {
 	ruleErrorEdge(w, r, "C15")
 	ruleErrorPrintedOnce(w, r, "C15")
 	ruleErrorPropagation(w, r, "C15")
+	ruleUserFillerKept(w, r, "C15")
 	ruleFlushWrites(w, r, "C15")
 	ruleFlushReturnsErrors(w, r, "C15")
 	ruleOptionTable(w, r, "C15", map[string][3]string{"WithDebugOutput": {tPState, "debugOut", "paramOrDefault"}})
